@@ -185,14 +185,26 @@ def run(ctx):
     # ---- R02.4 stdin closed when and only when done (shared with R01.4) ---------------------------------
     takes = [(bb, t) for bb, t in ri.calls() if M.callee_str(t["f"]) == "std::option::Option::<T>::take" and M.noref(T.operand(t["args"][0])) == ("field", selfp, "stdin")]
     other_close = [(b, si) for (b, si, s) in stores_to_field(ri, "stdin", "communicate::raw::RawCommunicator")]
-    def is_done_cmp(c):
-        if not (c[0] == "bin" and c[1] == "Eq"):
-            return False
-        a, b = M.noref(c[2]), M.noref(c[3])
+    def done_atom(c):
+        """+1: the input is exhausted (cursor == / >= length, or the rest of the input is empty); -1: its negation"""
         pos = ("field", selfp, "input_pos")
         ln = lambda x: x[0] == "call" and x[1] == "std::vec::Vec::<T, A>::len" and M.noref(x[2][0]) == ("field", selfp, "input_data")
-        return (a == pos and ln(b)) or (b == pos and ln(a))
-    done_e = bool_edges(ri, T, is_done_cmp, True)
+        if c[0] == "bin" and c[1] in ("Eq", "Ne", "Ge", "Lt"):
+            a, b = M.noref(c[2]), M.noref(c[3])
+            if a == pos and ln(b):
+                return 1 if c[1] in ("Eq", "Ge") else -1
+            if b == pos and ln(a) and c[1] in ("Eq", "Ne"):
+                return 1 if c[1] == "Eq" else -1
+        if c[0] == "call" and c[1] in ("core::slice::<impl [T]>::is_empty",) and c[2]:
+            x = M.noref(c[2][0])
+            if x[0] == "call" and "index" in x[1].lower() and M.noref(x[2][0]) == ("field", selfp, "input_data") and x[2][1][0] == "agg" and x[2][1][1][1] == "std::ops::RangeFrom" \
+                    and M.noref(x[2][1][2][0]) == pos:
+                return 1
+        return 0
+    done_e, _ = cond_edges(ri, T, done_atom)
+    # only tests made after the cursor update of the same iteration count
+    _st = stores_to_field(ri, "input_pos", "communicate::raw::RawCommunicator")
+    done_e = [e_ for e_ in done_e if _st and dominated_by_blocks(ri, e_[0], [x_[0] for x_ in _st], start=E.mp_call[0] if E.mp_call else 0)]
     ctx.ob("R02.4", "stdin-closed-iff-done", len(takes) == 1 and not other_close and dominated_by_edges(ri, takes[0][0], done_e, start=E.mp_call[0] if E.mp_call else 0), ri.loc(takes[0][0] if takes else 0),
            "stdin is released only by the take() under `input_pos == input_data.len()` (releases: %d take, %d stores)" % (len(takes), len(other_close)))
     # the comparison must read the cursor *after* the update
